@@ -3,7 +3,7 @@ produce, record the facets lines 196-211 look at, the verdict of all category cl
 expected classification that does not come from jaxtyping (np.dtype.kind / ml_dtypes.finfo,iinfo /
 jax.dtypes.issubdtype(.., prng_key)).  JSON in: {"backends": [...], "user": [...user categories...],
 "names": [...]}; JSON out on the last line."""
-import json, sys, io, contextlib, os, re, warnings
+import os, json, sys, io, contextlib, os, re, warnings
 os.environ.setdefault("TF_CPP_MIN_LOG_LEVEL", "3")
 
 
@@ -133,6 +133,13 @@ def numpy_dtypes():
 def main():
     req = json.load(sys.stdin)
     REVERSE[0] = bool(req.get("reverse"))
+    if req.get("reverse"):
+        # the second pass also runs after unrelated failing / raising PyTree checks in the same process
+        sys.path.insert(0, os.path.dirname(os.path.abspath(__file__)))
+        import impl_calls
+        with warnings.catch_warnings():
+            warnings.simplefilter("ignore")
+            impl_calls.prelude()
     buf = io.StringIO()
     rows, notes = [], []
     with contextlib.redirect_stdout(buf), contextlib.redirect_stderr(io.StringIO()), warnings.catch_warnings():
